@@ -325,9 +325,25 @@ class Corrupt(Machine):
         allspecs = {"truncate": rot.family_truncations, "headflip": rot.family_headflips,
                     "replace": rot.family_replacements, "inflate": rot.family_inflations,
                     "nesting": rot.family_nesting, "growth": rot.family_growth}[fam](data)
+        if op["count"] is None and os.environ.get("VERIF_TIER_EFFECTIVE") != "thorough" and len(allspecs) > 700:
+            # quick tier: "every truncation point" of a large hierarchy costs minutes of one run's wall-clock allowance;
+            # keep the first and last 100 points and an even spread between them (the thorough tier stays exhaustive)
+            step = max(1, (len(allspecs) - 200) // 500)
+            return allspecs[:100] + allspecs[100:-100:step] + allspecs[-100:], False
         if op["count"] is None or op["count"] >= len(allspecs):
             return allspecs, True
-        return s.sample(allspecs, op["count"]), False
+        count = op["count"]
+        if os.environ.get("VERIF_TIER_EFFECTIVE") != "thorough":
+            # quick tier: one run has a wall-clock allowance (150 s) and a large hierarchy costs ~0.1 s per damaged parse
+            # under line tracing; the number of sampled cases shrinks with the size of the envelope (a function of the
+            # data only, so the run stays a function of its seed), nesting and growth cases - the dearest - are capped
+            if fam == "nesting":
+                count = min(count, 30)
+            elif fam == "growth":
+                count = min(count, 8 if len(data) < 1500 else 4)
+            elif len(data) > 800:
+                count = max(10, count * 800 // len(data))
+        return s.sample(allspecs, count), False
 
     def _sweep(self, host, model, op):
         name = op["env"]
